@@ -2149,4 +2149,307 @@ theorem execute_callsAfter {d : Diagram} {H : Nat → Option Handler} {ext : Lis
       · rename_i st hl
         exact l1 _ hl
 
+theorem coerceInput_ne_mv {v : Val} {pt : PortType} : coerceInput v pt ≠ .error .multipleValues := by
+  cases v with
+  | raw x => simp [coerceInput]
+  | typed t =>
+    simp only [coerceInput]
+    split
+    · simp
+    · split <;> simp
+
+theorem extPorts_ne_mv {m : ModuleSpec} :
+    ∀ {ins : List (Nat × Val)} {acc : List (Nat × TV)}, extPorts m ins acc ≠ .error .multipleValues
+  | [], acc => by simp [extPorts]
+  | (p, v) :: r, acc => by
+    simp only [extPorts]
+    split
+    · simp
+    · split
+      · rename_i e he
+        intro h
+        simp only [Except.error.injEq] at h
+        subst h
+        exact coerceInput_ne_mv he
+      · exact extPorts_ne_mv
+
+theorem extPhase_ne_mv {d : Diagram} :
+    ∀ {ext : List (Nat × List (Nat × Val))} {mi : MInputs}, extPhase d ext mi ≠ .error .multipleValues
+  | [], mi => by simp [extPhase]
+  | (n, ins) :: r, mi => by
+    simp only [extPhase]
+    split
+    · simp
+    · split
+      · rename_i e he
+        intro h
+        simp only [Except.error.injEq] at h
+        subst h
+        exact extPorts_ne_mv he
+      · exact extPhase_ne_mv
+
+theorem preflight_ne_mv {d : Diagram} {H : Nat → Option Handler} {mi : MInputs} :
+    preflight d H mi ≠ some .multipleValues := by
+  unfold preflight
+  split
+  · simp
+  · split
+    · simp
+    · split
+      · simp
+      · intro h
+        obtain ⟨m, -, hm⟩ := List.exists_of_findSome?_eq_some h
+        unfold preflightModule at hm
+        split at hm
+        · cases hm
+        · split at hm <;> cases hm
+
+/-! ### the per-delivery "Multiple values" guard cannot fire any more -/
+
+theorem coerceOutputs_ne_mv {raw : List (Nat × Val)} :
+    ∀ {ps : List (Nat × PortType)}, coerceOutputs raw ps ≠ .error .multipleValues
+  | [] => by simp [coerceOutputs]
+  | (p, pt) :: r => by
+    simp only [coerceOutputs]
+    split
+    · simp
+    · rename_i v _
+      split
+      · rename_i e he
+        cases v with
+        | raw x => simp [coerceOutput] at he
+        | typed t =>
+          simp only [coerceOutput] at he
+          split at he
+          · cases he; simp
+          · split at he
+            · cases he; simp
+            · cases he
+      · split
+        · rename_i e he
+          intro h
+          simp only [Except.error.injEq] at h
+          subst h
+          exact coerceOutputs_ne_mv he
+        · simp
+
+theorem produce_ne_mv {H : Nat → Option Handler} {st : St} {m : ModuleSpec} {c : List Call} :
+    produce H st m ≠ .error (c, .multipleValues) := by
+  unfold produce
+  split
+  · simp
+  · split
+    · simp
+    · simp
+    · split
+      · simp
+      · split
+        · rename_i e he
+          intro h
+          simp only [Except.error.injEq, Prod.mk.injEq] at h
+          obtain ⟨-, rfl⟩ := h
+          exact coerceOutputs_ne_mv he
+        · simp
+
+theorem deliver_ne_mv {d : Diagram} {enforce : Bool} {outs : List (Nat × TV)} :
+    ∀ {ws : List Wire} {st : St} {c : List Call}, ws.Pairwise (fun a b => sameDst a b = false) →
+      (∀ w ∈ ws, hasKey w.dstP (st.minputs w.dstM) = false) →
+      deliver d enforce outs ws st ≠ .error (c, .multipleValues)
+  | [], st, c, _, _ => by simp [deliver]
+  | w :: ws, st, c, hpw, hfree => by
+    have hk := hfree w (by simp)
+    simp only [deliver]
+    split
+    · simp
+    · split
+      · simp
+      · split
+        · simp
+        · split
+          · simp
+          · simp only [hk, Bool.false_eq_true, if_false]
+            rw [List.pairwise_cons] at hpw
+            apply deliver_ne_mv hpw.2
+            intro w' hw'
+            have hold := hfree w' (List.mem_cons_of_mem _ hw')
+            have hne := hpw.1 w' hw'
+            simp only [MInputs.add]
+            split
+            · rename_i heq
+              rw [hasKey_append, hold]
+              simp only [Bool.false_or]
+              simp only [sameDst, Bool.and_eq_false_iff, beq_eq_false_iff_ne] at hne
+              rcases hne with hne | hne
+              · exact absurd heq.symm hne
+              · simp only [hasKey, List.any_cons, List.any_nil, Bool.or_false, beq_eq_false_iff_ne]
+                exact hne
+            · exact hold
+
+theorem runModule_ne_mv {d : Diagram} {H : Nat → Option Handler} {enforce : Bool} {st : St} {m : ModuleSpec}
+    {c : List Call} (hu : d.Uniq) (hfed : Fed d st) (hnot : m.name ∉ st.order) :
+    runModule d H enforce st m ≠ .error (c, .multipleValues) := by
+  unfold runModule
+  split
+  · rename_i f hp
+    intro h
+    simp only [Except.error.injEq] at h
+    subst h
+    exact produce_ne_mv hp
+  · apply deliver_ne_mv
+    · exact (pairwise_of_count (by intro w hw; exact hu w hw)).sublist List.filter_sublist
+    · intro w hw
+      have hw' : w ∈ d.wires ∧ w.srcM = m.name := by simpa [Diagram.outgoing] using hw
+      cases hk : hasKey w.dstP (st.minputs w.dstM) with
+      | false => rfl
+      | true =>
+        have := hfed w hw'.1 hk
+        rw [hw'.2] at this
+        exact absurd this hnot
+
+theorem pass_ne_mv {d : Diagram} {H : Nat → Option Handler} {enforce : Bool} (hu : d.Uniq) :
+    ∀ {ms : List ModuleSpec} {st : St}, Fed d st →
+      (∀ c, pass d H enforce ms st ≠ .error (c, .multipleValues)) ∧
+      (∀ st', pass d H enforce ms st = .ok st' → Fed d st')
+  | [], st, hfed => by
+    simp only [pass]
+    exact ⟨fun c => by simp, fun st' h => by cases h; exact hfed⟩
+  | m :: ms, st, hfed => by
+    simp only [pass]
+    split
+    · exact pass_ne_mv hu hfed
+    · rename_i hnot
+      split
+      · exact pass_ne_mv hu hfed
+      · split
+        · rename_i f hrun
+          refine ⟨fun c h => ?_, fun st' h => (by cases h)⟩
+          simp only [Except.error.injEq] at h
+          subst h
+          exact runModule_ne_mv hu hfed hnot hrun
+        · rename_i st1 hrun
+          exact pass_ne_mv hu (runModule_fed hu hfed hrun)
+
+theorem loop_ne_mv {d : Diagram} {H : Nat → Option Handler} {enforce : Bool} (hu : d.Uniq) :
+    ∀ {fuel : Nat} {st : St} {c : List Call}, Fed d st → loop d H enforce fuel st ≠ .error (c, .multipleValues)
+  | 0, st, c, _ => by
+    simp only [loop]
+    split <;> simp
+  | fuel + 1, st, c, hfed => by
+    simp only [loop]
+    split
+    · obtain ⟨p1, p2⟩ := pass_ne_mv (H := H) (enforce := enforce) hu (ms := d.modules) hfed
+      split
+      · rename_i f hp
+        intro h
+        simp only [Except.error.injEq] at h
+        subst h
+        exact p1 _ hp
+      · rename_i st1 hp
+        split
+        · simp
+        · exact loop_ne_mv hu (p2 st1 hp)
+    · simp
+
+/-- no run ends in the per-delivery "Multiple values" error: two wires into one port, and a wire plus an
+    external value, are both stopped by the pre-flight checks -/
+theorem execute_ne_mv {d : Diagram} {H : Nat → Option Handler} {ext : List (Nat × List (Nat × Val))}
+    {enforce : Bool} : (execute d H ext enforce).out ≠ .error .multipleValues := by
+  unfold execute
+  split
+  · rename_i e he
+    intro h
+    simp only [Except.error.injEq] at h
+    subst h
+    exact extPhase_ne_mv he
+  · rename_i mi hext
+    split
+    · rename_i e he
+      intro h
+      simp only [Except.error.injEq] at h
+      subst h
+      exact preflight_ne_mv he
+    · rename_i hpre
+      obtain ⟨-, hu, -, hexcl⟩ := preflight_none hpre
+      split
+      · rename_i calls e hl
+        intro h
+        simp only [Except.error.injEq] at h
+        subst h
+        exact loop_ne_mv hu (fed_init hexcl) hl
+      · simp
+
+/-! ### in-place edits of a registered spec keep the names -/
+
+theorem edit_name (m : ModuleSpec) (e : SpecEdit) : (m.edit e).name = m.name := by cases e <;> rfl
+
+theorem editModule_wf {d : Diagram} (n : Nat) (e : SpecEdit) (h : d.WF) : (d.editModule n e).WF := by
+  unfold Diagram.WF Diagram.editModule at *
+  simp only [List.map_map]
+  have : ((fun m : ModuleSpec => m.name) ∘ fun m => if (m.name == n) = true then m.edit e else m) = fun m => m.name := by
+    funext m
+    simp only [Function.comp]
+    split
+    · exact edit_name m e
+    · rfl
+  rw [this]; exact h
+
+def Diagram.editAll (d : Diagram) (es : List (Nat × SpecEdit)) : Diagram :=
+  es.foldl (fun d ne => d.editModule ne.1 ne.2) d
+
+theorem editAll_wf {d : Diagram} (h : d.WF) : ∀ es : List (Nat × SpecEdit), (d.editAll es).WF := by
+  intro es
+  induction es generalizing d with
+  | nil => exact h
+  | cons x xs ih => exact ih (editModule_wf x.1 x.2 h)
+
+theorem editAll_wires (d : Diagram) : ∀ es : List (Nat × SpecEdit), (d.editAll es).wires = d.wires := by
+  intro es
+  induction es generalizing d with
+  | nil => rfl
+  | cons x xs ih => exact (ih (d.editModule x.1 x.2)).trans rfl
+
+/-! ### the order of the invocation log; modules on a cycle are never invoked -/
+
+theorem callsAfter_idx {d : Diagram} {H : Nat → Option Handler} {calls : List Call}
+    (hca : CallsAfter d H calls) (hnd : (calls.map (·.name)).Nodup) :
+    ∀ w ∈ d.wires, w.dstM ∈ calls.map (·.name) →
+      w.srcM ∈ calls.map (·.name) ∧ (calls.map (·.name)).idxOf w.srcM < (calls.map (·.name)).idxOf w.dstM := by
+  intro w hw hdst
+  obtain ⟨c, hc, hcn⟩ := List.mem_map.mp hdst
+  obtain ⟨pre, post, hsplit⟩ := List.append_of_mem hc
+  obtain ⟨s, hs, hsn, -⟩ := hca pre c post hsplit w hw hcn.symm
+  have hsrc : w.srcM ∈ pre.map (·.name) := List.mem_map.mpr ⟨s, hs, hsn⟩
+  have hnames : calls.map (·.name) = pre.map (·.name) ++ c.name :: post.map (·.name) := by
+    rw [hsplit]; simp
+  have hnot : w.dstM ∉ pre.map (·.name) := by
+    intro hin
+    rw [hnames, List.nodup_append] at hnd
+    exact hnd.2.2 _ hin _ (by simp [hcn]) rfl
+  refine ⟨by rw [hnames]; exact List.mem_append_left _ hsrc, ?_⟩
+  rw [hnames, List.idxOf_append, List.idxOf_append]
+  simp only [hsrc, hnot, if_true, if_false]
+  have := List.idxOf_lt_length_of_mem hsrc
+  omega
+
+theorem reaches_calls {d : Diagram} {names : List Nat}
+    (h : ∀ w ∈ d.wires, w.dstM ∈ names → w.srcM ∈ names ∧ names.idxOf w.srcM < names.idxOf w.dstM)
+    {a b : Nat} (hr : d.Reaches a b) : b ∈ names → a ∈ names ∧ names.idxOf a < names.idxOf b := by
+  induction hr with
+  | wire w hw => exact h w hw
+  | step w hw _ ih =>
+    intro hb
+    obtain ⟨h1, h2⟩ := ih hb
+    obtain ⟨h3, h4⟩ := h w hw h1
+    exact ⟨h3, Nat.lt_trans h4 h2⟩
+
+/-- a module that lies on a cycle of wires is never invoked, in no run -/
+theorem cycle_never_called {d : Diagram} {H : Nat → Option Handler} {ext : List (Nat × List (Nat × Val))}
+    {enforce : Bool} (hwf : d.WF) (hex : d.WiresExist) {a : Nat} (ha : d.Reaches a a) :
+    a ∉ (execute d H ext enforce).calls.map (·.name) := by
+  intro hin
+  have hnd := (execute_callsOK (d := d) (H := H) (ext := ext) (enforce := enforce) (G := False) hwf
+    (fun f => f.elim)).1
+  have := (reaches_calls (callsAfter_idx (execute_callsAfter hwf hex) hnd) ha hin).2
+  omega
+
 end Operon.Wiring
